@@ -109,3 +109,33 @@ def determinism(seed=None, props=None, n_seeds=4, runs=48):
     if not bad:
         print("  all identical")
     return 2 if bad else 0
+
+
+def sensitivity(only=None):
+    """Every repaired defect must come back when its fix: commit is reverted: for each `fixed:` line of
+    known_findings.txt the commit is reverted in a scratch worktree of /repo (under /var/tmp) and the owning
+    check must exit 1.  (The independently seeded changes are run by tools/run_seeded.py.)  Exit 0 if every
+    revert that applies is caught, 2 otherwise."""
+    import re
+    import subprocess
+    rows = []
+    with open(os.path.join(VERIF, "known_findings.txt")) as fh:
+        for line in fh:
+            m = re.match(r"fixed:\s+property=(C\d+)\s+([0-9a-f]{7,})\s+(.*)", line.strip())
+            if m and (only is None or m.group(1) in only):
+                rows.append(m.groups())
+    bad = 0
+    for prop, commit, what in rows:
+        r = subprocess.run([os.path.join(VERIF, "tools", "try_patch.sh"), "-R:" + commit, prop], capture_output=True, text=True)
+        out = r.stdout + r.stderr
+        if "revert failed" in out or "does not apply" in out:
+            verdict = "SKIPPED (the revert does not apply cleanly on top of later commits)"
+        elif r.returncode == 1:
+            m = re.search(r"class=(\S+)", out)
+            verdict = "caught (%s)" % (m.group(1) if m else "?")
+        else:
+            verdict = "NOT CAUGHT (exit %d)" % r.returncode
+            bad += 1
+        print("%s revert %s: %s   [%s]" % (prop, commit, verdict, what[:70]))
+    print("sensitivity: %d reverted fixes, %d not caught" % (len(rows), bad))
+    return 2 if bad else 0
